@@ -106,7 +106,9 @@ def _positive(e, val):
   if isinstance(e, (ast.Name, ast.Attribute)):
     return True
   if isinstance(e, ast.Compare) and len(e.ops) == 1 and isinstance(
-      e.ops[0], (ast.NotEq, ast.NotIn, ast.IsNot)):
+      e.ops[0], (ast.NotEq, ast.NotIn, ast.IsNot, ast.Eq, ast.In, ast.Is)):
+    # `x in s` false is `x not in s` true: the same relation, spelled the
+    # other way round by an early `continue` / `return`
     return True
   return False
 
